@@ -357,6 +357,14 @@ func oracleOpt(c OptCase) error {
 		t, err := lowLevelOpts(c, m)
 		outs = append(outs, mk("Parser["+m+"]", t, err, true))
 	}
+	// the same parser's recovery entry point: errors exactly when the strict loops fail, and the same trees
+	if rs, rerrs, ok := recoveryOpts(c); ok {
+		if len(rerrs) == 0 {
+			outs = append(outs, outcome{name: "Parser[recovery]", ok: true, hasTree: true, tree: astdump.Dump(rs)})
+		} else {
+			outs = append(outs, outcome{name: "Parser[recovery]", code: codeOf(rerrs[0]), msg: first(rerrs[0]), hasTree: true})
+		}
+	}
 	ref := outs[0]
 	for _, o := range outs[1:] {
 		if o.ok != ref.ok {
@@ -402,3 +410,24 @@ func genEntryPointsAgree(rt *rapid.T) AgreeCase {
 
 // FuzzEntryPointsAgree: coverage-guided search over the same generator (thorough tier).
 func FuzzEntryPointsAgree(f *testing.F) { agreeCheck.Fuzz(f, genEntryPointsAgree) }
+
+// recoveryOpts runs the recovery entry point of a parser configured like lowLevelOpts's.
+func recoveryOpts(c OptCase) ([]ast.Statement, []error, bool) {
+	tkz := tokenizer.GetTokenizer()
+	defer tokenizer.PutTokenizer(tkz)
+	toks, err := tkz.Tokenize([]byte(c.SQL))
+	if err != nil {
+		return nil, nil, false
+	}
+	var opts []parser.ParserOption
+	if c.Strict {
+		opts = append(opts, parser.WithStrictMode())
+	}
+	if c.Dialect != "" {
+		opts = append(opts, parser.WithDialect(c.Dialect))
+	}
+	p := parser.NewParser(opts...)
+	defer p.Release()
+	stmts, errs := p.ParseWithRecoveryFromModelTokens(toks)
+	return stmts, errs, true
+}
